@@ -28,7 +28,9 @@ func (c15) NumCases(tier string) int {
 	}
 	return 120
 }
-func (c15) Exhaustive(string) bool { return false }
+func (c15) ExhaustiveScope(string) string {
+	return "fault positions: every k < len for containers of at most 2000 bytes (count in observations: containers-enumerated-at-every-position); containers themselves are sampled"
+}
 
 type wrapErr struct{ inner error }
 
@@ -88,6 +90,13 @@ func (c15) Run(c *mon.Ctx, i int) {
 		return
 	}
 	cont := vs.S
+	if kind == "gzip" && r.Chance(1, 3) {
+		// a second member: faults between and inside members of a multistream file
+		extra := gen.Make(r, "text", r.Range(0, 2000))
+		cont = append(append([]byte(nil), cont...), encodeStdGzip(extra.B, r.Pick(1, 6))...)
+		d = gen.Data{Desc: d.Desc + "+" + extra.Desc, B: append(append([]byte(nil), d.B...), extra.B...)}
+		c.Count("two-member-gzip-containers", 1)
+	}
 	var ks []int
 	if len(cont) <= 2000 {
 		for k := 0; k < len(cont); k++ {
